@@ -11,6 +11,7 @@ import (
 	"strings"
 
 	"github.com/issue9/mux/v9"
+	"github.com/issue9/mux/v9/types"
 )
 
 // ---------------------------------------------------------------- router family
@@ -158,9 +159,13 @@ func (in *rinst) hid(pat string, methods []string) string {
 func (in *rinst) doHandle(op *Op, h string, plain bool) (res, msg string) {
 	hd := &H{kind: "route", id: h, prog: op.Prog}
 	return guard(func() {
-		if plain || len(op.Chain) == 0 {
+		if plain || (len(op.Chain) == 0 && op.Verb == "") {
 			pat, mws := desugar(op)
 			in.r.Handle(pat, hd, in.e.mws(mws), op.Methods...)
+			return
+		}
+		if op.Verb != "" { // the shorthand methods Get / Post / Delete / Put / Patch / Any of Router, Prefix and Resource
+			in.doVerb(op, hd)
 			return
 		}
 		f := in.facade(op)
@@ -170,6 +175,28 @@ func (in *rinst) doHandle(op *Op, h string, plain bool) (res, msg string) {
 			f.p.Handle(op.Pat, hd, in.e.mws(op.Mws), op.Methods...)
 		}
 	})
+}
+
+// doVerb calls the shorthand method named by op.Verb on the receiver the op goes through; the
+// specification expects what Handle with op.Methods (set by the generator) prescribes.
+func (in *rinst) doVerb(op *Op, hd *H) {
+	ms := in.e.mws(op.Mws)
+	if len(op.Chain) == 0 {
+		fs := map[string]func(string, *H, ...types.Middleware[*H]) *mux.Router[*H]{
+			"get": in.r.Get, "post": in.r.Post, "delete": in.r.Delete, "put": in.r.Put, "patch": in.r.Patch, "any": in.r.Any}
+		fs[op.Verb](op.Pat, hd, ms...)
+		return
+	}
+	f := in.facade(op)
+	if f.res != nil {
+		fs := map[string]func(*H, ...types.Middleware[*H]) *mux.Resource[*H]{
+			"get": f.res.Get, "post": f.res.Post, "delete": f.res.Delete, "put": f.res.Put, "patch": f.res.Patch, "any": f.res.Any}
+		fs[op.Verb](hd, ms...)
+		return
+	}
+	fs := map[string]func(string, *H, ...types.Middleware[*H]) *mux.Prefix[*H]{
+		"get": f.p.Get, "post": f.p.Post, "delete": f.p.Delete, "put": f.p.Put, "patch": f.p.Patch, "any": f.p.Any}
+	fs[op.Verb](op.Pat, hd, ms...)
 }
 
 func (in *rinst) doRemove(op *Op, plain bool) (res, msg string) {
